@@ -169,9 +169,9 @@ def r11_4(rep: Report) -> None:
         g = guards_of(a, fn)
         loop = [x for x in g if x.startswith('for ')]
         if loop and 'models.Key.get_kids(' in loop[-1]:
-            rep.ok(rid, c, 'keys only from the lookup', loop[-1])
+            rep.ok(rid, c, f'keys only from the lookup @{short(a, 40)}', loop[-1])
         else:
-            rep.fail(rid, c, 'keys only from the lookup',
+            rep.fail(rid, c, f'keys only from the lookup @{short(a, 40)} under {g}',
                      f'a key entry is appended under {g}, outside the iteration over '
                      'models.Key.get_kids(requested kids)', a)
     # item built from that key's own KID and KEY
